@@ -7,7 +7,7 @@ import props.C06 as C06
 
 RULE = ('grammar scripts (comments in any gap, hints) x {strip_comments, keyword_case upper/lower/capitalize, identifier_case upper/lower/capitalize, truncate_strings N (+truncate_char)} alone and combined with layout options; '
         'each output re-lexed and compared token by token; each filter applied to its own output; sweeps: a comment of every kind directly between every ordered pair of lexical classes '
-        '(no whitespace) in bare/bracket/call context, every lexical class x every case option, literal shapes x widths x markers, comments at nesting depth 1..64; '
+        '(no whitespace) in bare/bracket/call context, every lexical class x every case option, literal shapes x widths x markers, comments at nesting depth 1..64, every dictionary word in eight name-like positions (after AS, around a period, before a parenthesis, …) x case options; every token compared by its exact text; '
         'optimizer hints are recognised textually (/*+ --+ "# +"), independently of the lexer; non-trivial = distinct (script, filter options)')
 ASSUMPTIONS = ['conversion idempotence of str.upper/lower/capitalize (validated on all code points by S-CASE in the filters validation)', 'lexical bridge by re-lexing with the real lexer']
 PARTIAL = ['case filters: token-level map/idempotence AND the lexical bridge (the output text lexes to exactly the filtered tokens; lexing is invariant under ASCII case flips anywhere) are theorems for values whose case mapping is a same-length re-casing (all ASCII text; KF-C08-7 is the other case); strip_comments and truncate_strings: no fusing and end-to-end idempotence are oracle-checked; known findings KF-C08-1..7']
@@ -24,6 +24,15 @@ def is_hint(tt):
 def is_hint_text(v):
     """an optimizer hint by its spelling (docs: comments starting with /*+ , --+ or '# +'): independent of how the lexer types it"""
     return v.startswith('/*+') or v.startswith('--+') or v.startswith('# +')
+
+
+def exact(tt, v):
+    """second red-team pass: every token compares by its exact text — keywords, builtin type names and word operators too (a case filter must not
+    touch what it does not target, and must change nothing but letter case in what it targets).  The only normalisation is the serializer's, which
+    rewrites the line ends INSIDE a multi-word token such as 'order \r\n by' (KF-C06-2); it is applied to both sides"""
+    if tt in T.Keyword or tt in T.Name.Builtin or tt in T.Operator.Comparison:
+        return C06._ser_norm(v, False)
+    return v
 
 
 def check_filter(ctx, text, opts, layout):
@@ -54,12 +63,12 @@ def check_filter(ctx, text, opts, layout):
             q, inner = ("''", v[2:-2]) if v[:2] == "''" else ("'", v[1:-1])
             if len(inner) > n:
                 v = q + inner[:n] + opts.get('truncate_char', '[...]') + q
-        exp.append((ttname(tt), oracles.norm_kw(tt, v) if not opts.get('keyword_case') or not (tt in T.Keyword) else ' '.join(v.split())))
+        exp.append((ttname(tt), exact(tt, v)))
     got = []
     for tt, v in b:
         if tt in T.Comment.Single:
             v = v.rstrip('\r\n')
-        got.append((ttname(tt), oracles.norm_kw(tt, v) if not opts.get('keyword_case') or not (tt in T.Keyword) else ' '.join(v.split())))
+        got.append((ttname(tt), exact(tt, v)))
     if got != exp:
         k = next((i for i, (x, y) in enumerate(zip(got, exp)) if x != y), min(len(got), len(exp)))
         nh = lambda l: sum(1 for t, _ in l if 'Hint' in t)
@@ -139,6 +148,32 @@ def class_cases(ctx):
     return out
 
 
+# second red-team pass: every dictionary word in the positions where a word is, or could be taken for, a name: after AS, on either side of a
+# period, in front of '(', as a bare alias, after a type keyword.  The case filters see the lexer's type and nothing else; every token is compared
+# by its exact text, so a keyword re-cased by identifier_case (or a name re-cased by keyword_case) in one of these positions is a failing input
+POSITION_TEMPLATES = ['select 1 as {w} from t', 'select Ab.{w}, {w}.Cd from t', 'select {w}(1), {w} (2) from t', 'select Ab {w}, {w} Cd from t', "select date {w}, {w} 'Lit', cast(Ab as {w}) from t",
+                      'create table {w} ({w} {w})', 'select * from Tb as {w} join {w} on {w}.Id = Tb.Id',
+                      'select {w}/*c*/(1), {w}--c\n(2), {w} /*c*/ (3) from t where Ab = {w}/*c*/(select 1)']
+POSITION_OPTS = [{'identifier_case': 'upper'}, {'identifier_case': 'lower'}, {'keyword_case': 'upper'}, {'keyword_case': 'lower'}, {'keyword_case': 'capitalize', 'identifier_case': 'capitalize'},
+                 {'keyword_case': 'lower', 'identifier_case': 'upper', 'strip_comments': True, 'truncate_strings': 2}, {'strip_comments': True}]
+
+
+def position_cases(ctx):
+    out = []
+    words = [w for w in C06.dictionary_words() if w != 'GO']      # GO ends a statement wherever it stands; mid-line it meets KF-C06-1 (class_cases has GO on a line of its own)
+    for wi, w in enumerate(words):
+        w = w.capitalize() if wi % 2 else w[:1].lower() + w[1:].upper()
+        for ti, tpl in enumerate(POSITION_TEMPLATES):
+            if ctx.quick() and 2 <= ti < 7 and (wi + ti) % 4:
+                continue
+            for oi, o in enumerate(POSITION_OPTS):
+                if ctx.quick() and (wi + ti + oi) % 3:
+                    continue
+                out.append((tpl.replace('{w}', w), o, {}))
+    ctx.count('sweep.positions', len(out))
+    return out
+
+
 Q = "'"
 TR_INNER = ['', 'a', 'ab', 'abc', 'abcd', 'abcde', '  ab  ', 'ab   ', '   ab', ' ', '     ', 'it' + Q + Q + 's', Q + Q, Q + Q + Q + Q, 'a' + Q + Q, 'a\nb\nc', 'a\r\nbcd', 'éèêë', 'a\tb c', 'a\\b',
             'a\\' + Q + 'x', 'x' * 40]
@@ -191,7 +226,7 @@ def run(ctx):
         cs.append((text, opts, layout))
     for c in streams.corpus('C08'):
         cs.append((c['input'], c['options'], {}))
-    sweeps = adjacency_cases(ctx) + class_cases(ctx) + truncate_cases(ctx) + depth_cases(ctx)
+    sweeps = adjacency_cases(ctx) + class_cases(ctx) + truncate_cases(ctx) + depth_cases(ctx) + position_cases(ctx)
     for text, opts, layout in cs:
         for k in opts:
             ctx.count('opt:' + k)
@@ -255,6 +290,53 @@ def comment_first_child_of_group(text):
     return False
 
 
+def first_child_model_explains(text, out):
+    """KF-C08-1 by its mechanism: delete (without replacement) exactly the ordinary comments sitting in a Comment node that is the first child of a
+    nested group, replace every other ordinary comment by a blank (a line break if it ends its line), re-lex: the failing output must read as
+    exactly these tokens (letter case aside: case filters may be combined).  Any other way of gluing is not this finding"""
+    from sqlparse import sql
+    if not comment_first_child_of_group(text):
+        return False
+    try:
+        out = sqlparse.format(text, **(eval(out) if isinstance(out, str) else out))        # `out`: the options of the failing call
+        stmts = sqlparse.parse(text)
+    except Exception:
+        return False
+    parts, glued = [], 0
+    for st in stmts:
+        for leaf in st.flatten():
+            v = leaf.value
+            if leaf.ttype in T.Comment and not is_hint_text(v):
+                node = leaf
+                while node.parent is not None and isinstance(node.parent, sql.Comment):
+                    node = node.parent
+                par = node.parent
+                if par is not None and not isinstance(par, sql.Statement) and par.tokens and par.tokens[0] is node:
+                    glued += 1
+                    continue
+                parts.append('\n' if v[-1:] in '\r\n' else ' ')
+            else:
+                parts.append(v)
+    if not glued:
+        return False
+    low = lambda l: [(ttname(tt), v.lower()) for tt, v in l if not (tt in T.Comment and not is_hint_text(v))]
+    return low(toks(''.join(parts))) == low(toks(out))
+
+
+def only_statement_gaps_differ(text, options):
+    """KF-C08-2 by its mechanism: the first and the second output consist of the same statements, each with the same text once its leading and
+    trailing whitespace is stripped — only the whitespace BETWEEN (or after) statements differs (a comment's replacement blank became the trailing blank
+    of a statement, which the serializer drops on the next run)"""
+    try:
+        o = eval(options) if isinstance(options, str) else options
+        out = sqlparse.format(text, **o)
+        out2 = sqlparse.format(out, **o)
+        a, b = [x.strip() for x in sqlparse.split(out) if x.strip()], [x.strip() for x in sqlparse.split(out2) if x.strip()]
+    except Exception:
+        return False
+    return out != out2 and a == b
+
+
 def word_comment_period(text):
     """KF-C08-8: a word typed other than Name, then comments (and whitespace), then a period: the lexer's name-before-period look-ahead
     ([A-Z]\\w*(?=\\s*\\.)) sees through whitespace but not through comments"""
@@ -311,13 +393,13 @@ def classify(f, kf):
             # the same slice without regard to escapes: the cut ends in a backslash and the marker is empty, so the backslash escapes the closing quote
             if m and re.search(r"'truncate_char': ''", opts) and cut_ends_in_backslash(f['input'], int(m.group(1))):
                 return k['id']
-        if k['id'] == 'KF-C08-1' and 'fused' in f['what'] and re.search(r'[\w"`\')\]]/\*.*?\*/[\w"`\'(]', f['input'], re.S):
-            return k['id']
-        if k['id'] == 'KF-C08-1' and 'fused' in f['what'] and "'strip_comments': True" in opts and isinstance(f.get('input'), str) and comment_first_child_of_group(f['input']):
+        # second red-team pass: KF-C08-1 is recognised by its mechanism, not by the shape of the input — the output must be exactly what the known
+        # defect produces (comments that are the first child of a nested group vanish without a blank, every other one becomes a blank / line break)
+        if k['id'] == 'KF-C08-1' and 'fused' in f['what'] and "'strip_comments': True" in opts and isinstance(f.get('input'), str) and first_child_model_explains(f['input'], f.get('options')):
             return k['id']
         if k['id'] == 'KF-C08-8' and 'fused' in f['what'] and "'strip_comments': True" in opts and isinstance(f.get('input'), str) and (word_comment_period(f['input']) or ideal_relex_differs(f['input'])):
             return k['id']
-        if k['id'] == 'KF-C08-2' and 'own output' in f['what'] and "'strip_comments': True" in str(f.get('options')):
+        if k['id'] == 'KF-C08-2' and 'own output' in f['what'] and "'strip_comments': True" in str(f.get('options')) and only_statement_gaps_differ(f['input'], f.get('options')):
             return k['id']
     return None
 
